@@ -224,6 +224,11 @@ class FullWorld:
             from ..mbworld import pinned_urandom
             with pinned_urandom(self.dsides[x]):
                 kw = dict(getattr(self, "dilate_kwargs", {}))
+                if not hasattr(self, "dstatus"):
+                    self.dstatus = {"L": [], "F": []}
+                kw["on_status_update"] = lambda st, x=x: self.dstatus[x].append(
+                    {"NoPeer": "nopeer", "ConnectingPeer": "connecting", "ConnectedPeer": "connected", "ReconnectingPeer": "reconnecting",
+                     "StoppedPeer": "stopped"}.get(type(st.peer_connection).__name__, type(st.peer_connection).__name__))
                 kw.update(getattr(self, "dilate_kwargs_by_side", {}).get(x, {}))
                 if x in self.no_listen:
                     kw["no_listen"] = True
@@ -472,7 +477,9 @@ class FullWorld:
                     if link is not None and self.end_of(link, n) is not None and self.proto(link, n) is m._connection:
                         sel = i
             closed = any(k == "closed" for k, _ in self.cl[n].events) or bool(self.cl[n].close_results and self.cl[n].close_results[0])
-            out[n] = {"mgr": machine_state(m) if m is not None else "none",
+            ds = getattr(self, "dstatus", {}).get(n, [])
+            out[n] = {"dstat": ds[-1] if ds else ("none" if n not in self.api else "nopeer"),
+                      "mgr": machine_state(m) if m is not None else "none",
                       "ctr": machine_state(ctr) if ctr is not None else "none",
                       "sel": sel, "role": ("LEADER" if "LEADER" in str(m._my_role) else "FOLLOWER") if (m is not None and m._my_role is not None) else "-",
                       "closed": bool(closed)}
@@ -559,7 +566,8 @@ def stop_due(st, x):
 def spec_state(st):
     out = {}
     for n in ("L", "F"):
-        out[n] = {"mgr": st["mgr"][n], "ctr": st["ctr"][n], "sel": st["sel"][n], "closed": st["stopped"][n] and st["stopReq"][n]}
+        out[n] = {"mgr": st["mgr"][n], "ctr": st["ctr"][n], "sel": st["sel"][n], "closed": st["stopped"][n] and st["stopReq"][n],
+                  "dstat": st["dstat"][n]}
     return out
 
 
@@ -582,7 +590,7 @@ def replay_behaviour(tid, states, no_listen=(), then_stop=()):
             rs, ss = w.state(), spec_state(st)
             d = []
             for n in ("L", "F"):
-                for k in ("mgr", "ctr", "sel"):
+                for k in ("mgr", "ctr", "sel", "dstat"):
                     if rs[n][k] != ss[n][k]:
                         d.append("%s.%s: spec=%s real=%s" % (n, k, ss[n][k], rs[n][k]))
                 if ss[n]["closed"] != rs[n]["closed"]:
@@ -704,6 +712,17 @@ def run(prop, tier):
                 behaviours.append(("tlc-cex:" + name, r.trace, consts["NoListen"]))
             elif not r.ok:
                 raise RuntimeError("TLC failed on %s: %s" % (m, r.error or r.stdout[-1500:]))
+        # supplementary (no listed property): the DilationStatus the application is given agrees with the Manager - checked by TLC
+        # here, and compared step by step in every replay (`dstat`); a failure never produces a VIOLATION line
+        supp = {}
+        sc = dict(MaxLinks=3 if prop == "C17" else 2, MaxCuts=1, Dilaters=both, AllowStop=({"L"} if prop == "C17" else set()), NoListen=set())
+        for inv in ("DStatusStopped", "DStatusConnected", "DStatusNone", "DStatusStoppedConverse"):
+            common.write_model(wd, "MC_supp_" + inv, "DilationL3", sc, invariants=[inv])
+            rs = tlc.run("MC_supp_%s.tla" % inv, "MC_supp_%s.cfg" % inv, cwd=wd.path, timeout=900)
+            supp[inv] = "holds (%d states)" % rs.distinct if rs.ok else ("violated: %s" % [st_["last"] for st_ in rs.trace][-3:] if rs.violated else "not decided")
+        cov["supplementary"] = {"note": "DilationStatus.peer_connection is modelled in DilationL3.tla (dstat) and compared after every replayed step; "
+                                        "DStatusStoppedConverse is known not to hold on the pinned tree (WAITING/WANTING x stop do not report StoppedPeer): "
+                                        "an observation outside the listed properties", "model_invariants": supp}
         g = "MC_%s_gen" % prop
         common.write_model(wd, g, "DilationL3", gen)
         simdir = wd.file("sim")
